@@ -67,11 +67,15 @@ pub fn make_compiler(cfg: &Value) -> Compiler {
         cost_models,
     };
     let extra = if cfg["extra_fees"].is_null() { None } else { Some(int_from(&cfg["extra_fees"]) as u64) };
-    Compiler::new(
-        pparams,
-        Config { extra_fees: extra },
-        ChainPoint { slot: u("slot", 1000), hash: vec![], timestamp: u("ts", 1_700_000) as u128 },
-    )
+    let cursor = ChainPoint { slot: u("slot", 1000), hash: vec![], timestamp: u("ts", 1_700_000) as u128 };
+    if cfg["construct"].as_str() == Some("reconfigured") {
+        // a long-lived instance built under another margin and given this configuration afterwards (`config` is a
+        // public field): what counts is the configuration in force when a transaction is compiled
+        let mut c = Compiler::new(pparams, Config { extra_fees: Some(12_345) }, cursor);
+        c.config = Config { extra_fees: extra };
+        return c;
+    }
+    Compiler::new(pparams, Config { extra_fees: extra }, cursor)
 }
 
 /// In-memory store that records every call (the observation seam for input selection).
